@@ -66,6 +66,18 @@ def families(tier):
             out.append(dict(prop='C03', family='c03.forwarded', id=f'c03.forwarded/{m1}-{fwd_what}-{down}-{target}-t{int(two)}-o{"".join(o)}', cfg=cfg, params=dict(leaf=down),
                             scn=dict(buses={'A': {}, 'B': {}}, order=o, handlers=hs, main=main, actors=[stall_actor], settle=2.0,
                                      forwards=[('A', 'B')] if fwd_what == 'all' else [], fwd_types=[('A', 'C', 'B')] if fwd_what == 'child_only' else [])))
+    # parallel_handlers bus: an earlier-registered handler fails (or returns) while a later sibling is still running; also as the awaited child of a serial parent
+    for first, second, place in itertools.product(['raise', 'pause_raise', 'ret', 'pause'], ['pause', 'pause_pause', 'c_ff_pause'], ['root', 'child_ff', 'child_aw']):
+        ebus, epat = ('A', 'P') if place == 'root' else ('B', 'C')
+        p1 = {'raise': [('raise', 'ValueError')], 'pause_raise': [('pause',), ('raise', 'ValueError')], 'ret': [('ret', 1)], 'pause': [('pause',)]}[first]
+        p2 = {'pause': [('pause',)], 'pause_pause': [('pause',), ('pause',)], 'c_ff_pause': [('disp', ebus, 'G', 'ff'), ('pause',)]}[second]
+        hs = [dict(bus=ebus, pat=epat, name='h1', prog=p1), dict(bus=ebus, pat=epat, name='h2', prog=p2), dict(bus=ebus, pat='G', name='hg', prog=[('pause',)]),
+              dict(bus='A', pat='X', name='hx', prog=[('ret', 0)])]
+        if place != 'root':
+            hs.append(dict(bus='A', pat='P', name='hp', prog=[('disp', 'B', 'C', 'await' if place == 'child_aw' else 'ff')]))
+        for o in (['A', 'B'], ['B', 'A']):
+            out.append(dict(prop='C03', family='c03.parallel', id=f'c03.parallel/{first}-{second}-{place}-o{"".join(o)}', cfg=cfg, params=dict(leaf=first),
+                            scn=dict(buses={'A': dict(parallel=(place == 'root')), 'B': dict(parallel=True)}, order=o, handlers=hs, main=[('disp', 'A', 'P', 'await')], actors=[stall_actor], forwards=[], settle=2.0)))
     # self-recursion: hr(R d) dispatches R(d+1) while d < maxdepth
     for maxd, mode, extra in itertools.product((1, 2, 3, 4), ('ff', 'await'), (False, True)):
         hs = [dict(bus='A', pat='R', name='hr', prog=[('recurse', 'A', mode, maxd)] + ([('pause',)] if extra else []))]
